@@ -574,6 +574,7 @@ static int do_replay(int argc, char **argv)
 }
 
 int e2_chain_main(int maxn, int embedded);
+int e2_seq_main(int nkeys, int depth, int embedded);
 
 int e2_set_main(int argc, char **argv)
 {
@@ -585,6 +586,8 @@ int e2_set_main(int argc, char **argv)
         if (setup_domain(argv[2])) { fprintf(stderr, "unknown domain\n"); return 2; }
         return do_replay(argc - 3, argv + 3);
     }
+    if (argc >= 4 && !strcmp(argv[1], "seqs"))
+        return e2_seq_main(atoi(argv[2]), atoi(argv[3]), argc > 4 ? atoi(argv[4]) : 0);
     if (argc >= 3 && !strcmp(argv[1], "chains"))
         return e2_chain_main(atoi(argv[2]), argc > 3 ? atoi(argv[3]) : 0);
     fprintf(stderr, "usage: core_vh set bfs|replay <domain>[@embedded] ... | core_vh set chains <maxn> [embedded]\n");
